@@ -62,6 +62,10 @@ var vfTagOps = []vfTagOp{
 	{Name: "s2 reads fnd", Kind: "fndget", Sess: "s2"},
 	{Name: "s1 leaves fnd", Kind: "fndleave", Sess: "s1"},
 	{Name: "s1 joins fnd", Kind: "fndsub", Sess: "s1"},
+	{Name: "new account with untidy plain tags", Kind: "newacc", Tags: []string{" Hiking ", "HIKING", "_x", "q", "chess"}},
+	{Name: "new account with a reserved-namespace tag", Kind: "newacc", Tags: []string{"chess", "email:mallory@example.com"}},
+	{Name: "new group with untidy plain tags", Kind: "newgrp", Sess: "s1", Tags: []string{" Club ", "CLUB", "-bad", "travel"}},
+	{Name: "new group with a reserved-namespace tag", Kind: "newgrp", Sess: "s1", Tags: []string{"club", "basic:alice"}},
 	{Name: "bob is suspended", Kind: "state", Q: "bob"},
 	{Name: "the second group is deleted", Kind: "state", Q: "grp2"},
 }
@@ -269,6 +273,63 @@ func vfTagExec(hist []int, last bool) vfXResult {
 				}
 			}
 			*cur = now
+		case "newacc", "newgrp":
+			tj, _ := json.Marshal(op.Tags)
+			want, _ := vfRefNormalize(op.Tags, defaultMaxTagCount)
+			reserved := len(vfRestricted(want, vfTagImmutable)) > 0
+			var got []string
+			created := false
+			if op.Kind == "newacc" {
+				before := len(x.w.db.Users())
+				nc := x.w.vfConnect(fmt.Sprintf("n%d", i))
+				vsched.Quiesce()
+				nc.Req(`{"hi":{"id":"$ID","ver":"0.22"}}`)
+				code, frames = nc.Req(`{"acc":{"id":"$ID","user":"new","scheme":"basic","secret":"%s","login":false,"tags":%s,"desc":{"public":{"fn":"N"}}}}`,
+					vfB64([]byte(fmt.Sprintf("newuser%d:secret123", i))), string(tj))
+				created = len(x.w.db.Users()) > before
+				if created {
+					for _, uid := range x.w.db.Users() {
+						known := false
+						for _, u := range x.users {
+							if u.uid == uid {
+								known = true
+							}
+						}
+						if ur := x.w.db.User(uid); !known && ur != nil {
+							got = nil
+							for _, tg := range ur.Tags {
+								// the authenticator's own tag for the new login is the server's doing
+								if !strings.HasPrefix(tg, "basic:newuser") {
+									got = append(got, tg)
+								}
+							}
+						}
+					}
+				}
+				nc.Disconnect()
+			} else {
+				before := len(x.w.db.Topics())
+				code, frames = c.Req(`{"sub":{"id":"$ID","topic":"new%d","set":{"desc":{"public":{"fn":"N"}},"tags":%s}}}`, i, string(tj))
+				for _, tn := range x.w.db.Topics() {
+					if tn != x.grp && tn != x.grp2 && strings.HasPrefix(tn, "grp") {
+						if tr := x.w.db.Topic(tn); tr != nil && len(x.w.db.Topics()) > before {
+							created = true
+							got = append([]string(nil), tr.Tags...)
+						}
+					}
+				}
+			}
+			sort.Strings(got)
+			switch {
+			case reserved && created:
+				bad("C19:created-with-reserved-tags:"+op.Kind, fmt.Sprintf("answered %d; created with tags %v although the request names tags in reserved namespaces", code, got))
+			case reserved && code < 400:
+				bad("C19:reserved-tags-at-creation-accepted:"+op.Kind, fmt.Sprintf("answered %d", code))
+			case !reserved && !created:
+				bad("C19:legal-creation-refused:"+op.Kind, fmt.Sprintf("answered %d", code))
+			case !reserved && fmt.Sprint(got) != fmt.Sprint(want):
+				bad("C19:created-tags-not-normalised:"+op.Kind, fmt.Sprintf("stored %v, the normalised request is %v", got, want))
+			}
 		case "fndset":
 			qj, _ := json.Marshal(op.Q)
 			code, frames = c.Req(`{"set":{"id":"$ID","topic":"fnd","desc":{"public":%s}}}`, string(qj))
@@ -354,15 +415,18 @@ func vfTagExec(hist []int, last bool) vfXResult {
 				active bool
 			}
 			var ents []ent
-			for n, u := range x.users {
-				if n == "alice" {
+			for _, uid := range x.w.db.Users() {
+				if uid == alice.uid {
 					continue
 				}
-				if ur := x.w.db.User(u.uid); ur != nil {
-					ents = append(ents, ent{u.uid.UserId(), ur.Tags, ur.State == types.StateOK})
+				if ur := x.w.db.User(uid); ur != nil {
+					ents = append(ents, ent{uid.UserId(), ur.Tags, ur.State == types.StateOK})
 				}
 			}
-			for _, tn := range []string{x.grp, x.grp2} {
+			for _, tn := range x.w.db.Topics() {
+				if !strings.HasPrefix(tn, "grp") {
+					continue
+				}
 				if tr := x.w.db.Topic(tn); tr != nil {
 					ents = append(ents, ent{tn, tr.Tags, tr.State == types.StateOK})
 				}
@@ -485,7 +549,37 @@ func vfTagExec(hist []int, last bool) vfXResult {
 		pj, _ := json.Marshal(sr.Private)
 		priv = string(pj)
 	}
-	res.Key = fmt.Sprintf("me=%v grp=%v priv=%s on=%v bob=%v grp2=%v fnd=%s", m.Me, m.Grp, priv, m.OnFnd, m.Bob, m.Grp2, fndPub)
+	var extra []string
+	for _, uid := range x.w.db.Users() {
+		known := false
+		for _, u := range x.users {
+			if u.uid == uid {
+				known = true
+			}
+		}
+		if ur := x.w.db.User(uid); !known && ur != nil {
+			var tg []string
+			for _, v := range ur.Tags {
+				if !strings.HasPrefix(v, "basic:newuser") {
+					tg = append(tg, v)
+				}
+			}
+			extra = append(extra, "user"+fmt.Sprint(tg))
+		}
+	}
+	for _, tn := range x.w.db.Topics() {
+		if tn != x.grp && tn != x.grp2 && strings.HasPrefix(tn, "grp") {
+			if tr := x.w.db.Topic(tn); tr != nil {
+				extra = append(extra, "grp"+fmt.Sprint(tr.Tags))
+			}
+		}
+	}
+	sort.Strings(extra)
+	att := 0
+	if sx := x.cl["s1"].session(); sx != nil {
+		att = sx.countSub()
+	}
+	res.Key = fmt.Sprintf("me=%v grp=%v priv=%s on=%v bob=%v grp2=%v fnd=%s extra=%v s1subs=%d", m.Me, m.Grp, priv, m.OnFnd, m.Bob, m.Grp2, fndPub, extra, att)
 	return res
 }
 
